@@ -122,7 +122,7 @@ NukedLatencyCycles(j, n, cap, cyc) == IF n <= cap THEN (j - 1) * cyc ELSE Max(0,
 
 (* ------------------------------------------------------------------ events and what they cost
    An event is <<t, ch, a, b>>: t = 0 note-off(ch, key a), 1 note-on(ch, key a, velocity b),
-   2 controller(ch, number a, value b), 3 pitch bend(ch, lsb a, msb b).
+   2 controller(ch, number a, value b), 3 pitch bend(ch, lsb a, msb b), 4 program change(ch, program a).
    Held keys: the MIDI rule for the events the check uses (no pedals, CC 120/123 = all off). *)
 HeldStep(H, e) ==
   CASE e[1] = 1 /\ e[4] > 0 -> H \cup {<<e[2], e[3]>>}
@@ -190,16 +190,20 @@ Filler(kind, key, i) ==             \* i-th (1-based) filler event
     [] OTHER -> <<2, 0, 7, 100 + (i % 2)>>
 BurstLen(kind) == IF kind = "b16A" THEN 16 ELSE 64
 VolumeDefault == <<2, 0, 7, 100>>
-\* kinds A B C: the target note-on, an even number nf of fillers (complete pairs) of which `before` precede
-\* it, and a closing volume event
+FillerMute    == <<4, 1, 1, 0>>        \* the filler channel plays program 1 (all operators at TL 127): its notes cost
+FillerUnmute  == <<4, 1, 0, 0>>        \* the same writes but make no sound, so the first sound heard is the target's
+\* kinds A B C: the filler channel muted, the target note-on, an even number nf of fillers (complete pairs) of
+\* which `before` precede the target, and two closing volume events
 BurstEvents(kind, key, pos) ==
   LET nev == BurstLen(kind)
-      nf == nev - 2
+      nf == nev - 4
       before == CASE pos = 1 -> 0 [] pos = 2 -> 2 * (nf \div 4) [] OTHER -> nf
-  IN [i \in 1..nev |-> IF i <= before THEN Filler(kind, key, i)
-                       ELSE IF i = before + 1 THEN On(0, key)
-                       ELSE IF i < nev THEN Filler(kind, key, i - 1)
-                       ELSE VolumeDefault]
+  IN [i \in 1..nev |-> IF i = 1 THEN FillerMute
+                       ELSE IF i - 1 <= before THEN Filler(kind, key, i - 1)
+                       ELSE IF i - 1 = before + 1 THEN On(0, key)
+                       ELSE IF i < nev - 1 THEN Filler(kind, key, i - 2)
+                       ELSE IF i = nev - 1 THEN VolumeDefault
+                       ELSE FillerUnmute]
 \* kind D: a chord on ONE MIDI channel (6, 3 or 2 keys, target first) followed by volume toggles of that channel
 DChord(pos) == CASE pos = 1 -> 6 [] pos = 2 -> 3 [] OTHER -> 2
 DEvents(key, pos) ==
@@ -221,7 +225,8 @@ Predict(emu, evs, key) ==
   LET n == BurstCost({}, evs)
       kon == KeyOnPos({}, evs, 1, 0, <<0, key>>, 0)
       first == kon - WOn + 1                      \* first write of the target's note-on (its patch)
-  IN CASE IsYmfm(emu) /\ RingLost(first, n, RingCap) -> "lost"
+  IN CASE IsYmfm(emu) /\ RingLost(first, n, RingCap) -> "lost"          \* the patch never reaches the chip
+       [] IsYmfm(emu) /\ n > RingCap -> "replayed"                         \* it does, but stale entries are applied around it
        [] IsNuked(emu) /\ NukedLatencyCycles(kon, n, NukedCap, NukedCyclesPerWrite) * 1000
                               > 10 * NativeRate(0) * NukedCyclesPerSample -> "late"
        [] OTHER -> "ok"
